@@ -86,6 +86,9 @@ class AsyncTask(futures.FutureBase):
             )
         if _debug_options.COLLECT_PERF_STATS:
             self._id = profiler.incr_counter()
+        else:
+            # (the option may be switched on before this task completes)
+            self._id = 0
 
     def can_continue(self):
         """Indicates whether this async task has more steps to execute.
